@@ -60,17 +60,24 @@ def WF(s: object, ns: dict) -> bool:
         if t == "map":
             return "values" in s and WF(s["values"], ns)
         if t == "fixed":
-            return "size" in s and isinstance(s["size"], int) and not isinstance(s["size"], bool) and s["size"] >= 0
+            return HAS_NAME(s) and "size" in s and isinstance(s["size"], int) and not isinstance(s["size"], bool) \
+                and s["size"] >= 0
         if t == "enum":
-            return "symbols" in s and isinstance(s["symbols"], list) and len(s["symbols"]) >= 1 \
+            return HAS_NAME(s) and "symbols" in s and isinstance(s["symbols"], list) and len(s["symbols"]) >= 1 \
                 and ALL_STR(s["symbols"], 0)
         if t == "record" or t == "error":
-            return "fields" in s and isinstance(s["fields"], list) and WF_FIELDS(s["fields"], ns, 0)
+            return HAS_NAME(s) and "fields" in s and isinstance(s["fields"], list) and WF_FIELDS(s["fields"], ns, 0)
         return False
     if isinstance(s, str):
         return (not RESERVED(s)) and s in ns and isinstance(ns[s], dict) and IS_DEFINITION(ns[s]) \
             and WF(ns[s], ns)
     return False
+
+
+@spec
+def HAS_NAME(s: dict) -> bool:
+    """named types carry their (full) name"""
+    return "name" in s and isinstance(s["name"], str)
 
 
 @spec
@@ -228,6 +235,124 @@ def ANY_BRANCH(d: object, u: list, ns: dict, o: dict, k: int) -> bool:
     if k >= len(u):
         return False
     return CONFORMS(d, u[k], ns, o) or ANY_BRANCH(d, u, ns, o, k + 1)
+
+
+# ------------------------------------------------- validation (C10): the property's predicate
+@spec
+def VALID(d: object, s: object, ns: dict, o: dict) -> bool:
+    """C10's statement, clause by clause: None; bool; non-bool int in 32/64-bit range; int or
+    float for float/double; bytes or bytearray; str; bytes of the declared size; a declared
+    symbol; non-string sequences; string-keyed mappings; mappings whose present fields conform
+    and whose absent fields have a default or accept null (strict: an absent field without a
+    default is rejected); a conforming or explicitly hinted union branch.
+    (Differs from CONFORMS -- what the writers accept -- in not float()-converting field values
+    and in knowing strict mode.)"""
+    t = TYPE(s)
+    if t == "null":
+        return d is None
+    if t == "boolean":
+        return isinstance(d, bool)
+    if t == "int":
+        return isinstance(d, int) and not isinstance(d, bool) and INT_MIN <= d and d <= INT_MAX
+    if t == "long":
+        return isinstance(d, int) and not isinstance(d, bool) and LONG_MIN <= d and d <= LONG_MAX
+    if t == "float" or t == "double":
+        return (isinstance(d, int) or isinstance(d, float)) and not isinstance(d, bool)
+    if t == "bytes":
+        return isinstance(d, (bytes, bytearray))
+    if t == "string":
+        return isinstance(d, str)
+    if isinstance(s, list):
+        return UNION_VALID(d, s, ns, o)
+    if isinstance(s, dict):
+        if t == "fixed":
+            return isinstance(d, bytes) and len(d) == s["size"]
+        if t == "enum":
+            return d in s["symbols"]
+        if t == "array":
+            return isinstance(d, (list, tuple, bytes, bytearray)) and ALL_VALID(seq_items(d), s["items"], ns, o, 0)
+        if t == "map":
+            return isinstance(d, dict) and ALL_STR(list(d), 0) and ALL_VALID(list(d.values()), s["values"], ns, o, 0)
+        if t == "record" or t == "error":
+            return isinstance(d, dict) and HINT_OK(d, s) and FIELDS_VALID(s["fields"], d, ns, o, 0)
+        return False
+    if isinstance(s, str) and s in ns:
+        return VALID(d, ns[s], ns, o)
+    return False
+
+
+@spec
+def ALL_VALID(xs: list, s: object, ns: dict, o: dict, k: int) -> bool:
+    if k >= len(xs):
+        return True
+    return VALID(xs[k], s, ns, o) and ALL_VALID(xs, s, ns, o, k + 1)
+
+
+@spec
+def FIELD_VALID(f: dict, d: dict, ns: dict, o: dict) -> bool:
+    """'present fields conform and absent fields have a default or accept null'; strict: an
+    absent field without a default is rejected even when it accepts null"""
+    if f["name"] in d:
+        return VALID(d[f["name"]], f["type"], ns, o)
+    if "default" in f:
+        return True
+    return (not o.get("strict")) and VALID(None, f["type"], ns, o)
+
+
+@spec
+def DEFAULTS_DATA(s: object, ns: dict, o: dict) -> bool:
+    """every field default in s (one level per unfolding, by-name references not followed) is
+    itself valid Python data for the field's type.  validate checks an absent field's default as
+    if it were data (known finding KF12); on schemas with this property that is invisible."""
+    if isinstance(s, list):
+        return DEFAULTS_DATA_BRANCHES(s, ns, o, 0)
+    if isinstance(s, dict):
+        if s["type"] == "array":
+            return DEFAULTS_DATA(s["items"], ns, o)
+        if s["type"] == "map":
+            return DEFAULTS_DATA(s["values"], ns, o)
+        if s["type"] == "record" or s["type"] == "error":
+            return DEFAULTS_DATA_FIELDS(s["fields"], ns, o, 0)
+        return True
+    if isinstance(s, str) and s in ns:
+        return DEFAULTS_DATA(ns[s], ns, o)
+    return True
+
+
+@spec
+def DEFAULTS_DATA_BRANCHES(u: list, ns: dict, o: dict, k: int) -> bool:
+    if k >= len(u):
+        return True
+    return DEFAULTS_DATA(u[k], ns, o) and DEFAULTS_DATA_BRANCHES(u, ns, o, k + 1)
+
+
+@spec
+def DEFAULTS_DATA_FIELDS(fs: list, ns: dict, o: dict, k: int) -> bool:
+    if k >= len(fs):
+        return True
+    return implies("default" in fs[k], VALID(fs[k]["default"], fs[k]["type"], ns, o)) \
+        and DEFAULTS_DATA(fs[k]["type"], ns, o) and DEFAULTS_DATA_FIELDS(fs, ns, o, k + 1)
+
+
+@spec
+def FIELDS_VALID(fs: list, d: dict, ns: dict, o: dict, k: int) -> bool:
+    if k >= len(fs):
+        return True
+    return FIELD_VALID(fs[k], d, ns, o) and FIELDS_VALID(fs, d, ns, o, k + 1)
+
+
+@spec
+def UNION_VALID(d: object, u: list, ns: dict, o: dict) -> bool:
+    if isinstance(d, tuple) and not o.get("disable_tuple_notation"):
+        return len(d) == 2 and HINTED(u, d[0], 0) >= 0 and VALID(d[1], u[HINTED(u, d[0], 0)], ns, o)
+    return ANY_VALID(d, u, ns, o, 0)
+
+
+@spec
+def ANY_VALID(d: object, u: list, ns: dict, o: dict, k: int) -> bool:
+    if k >= len(u):
+        return False
+    return VALID(d, u[k], ns, o) or ANY_VALID(d, u, ns, o, k + 1)
 
 
 # ------------------------------------------------------ the spec's own encoder
